@@ -40,7 +40,7 @@ RULE = ('A: per (SMTP|LMTP, PIPELINING on/off, n=1..3): every single and double 
         '{200,204,302,400,404,500,503} x X-Smtp-Reply {absent,250,450,550,malformed} + refused, dropped, truncated.  D: resolver '
         'answers {MX list, no MX but A, nothing, error} x attempts 0..3 x recipient shapes.  Every script is non-trivial '
         'except the all-success baselines.')
-ASSUMPTIONS = ['in-memory sockets, fake TLS, fake Popen, scripted HTTP origin, stub DNS resolver (environment by definition)',
+ASSUMPTIONS = ['in-memory sockets (a sample of the SMTP/LMTP scripts is replayed over real gevent sockets on the real loop and must give the same result), fake TLS, fake Popen, scripted HTTP origin, stub DNS resolver (environment by definition)',
                'where several error replies of different classes decide about one recipient either class is accepted']
 
 
@@ -524,6 +524,20 @@ def run_config(cfg, tier, seed):
                 res.violation(sig, msg, {'part': 'A', 'cfg': wc, 'script': script})
             if i % 400 == 7:
                 res.sample({'part': 'A', 'config': wc, 'script': script, 'result': repr(obs)[:300]})
+            # conformance of the in-memory sockets: replay on real gevent sockets and compare
+            if not wc.get('tls') and not wc.get('envelopes') and not wc.get('auth') and i % (23 if tier == 'quick' else 5) == 3:
+                from worlds.relay_world import run_on_real_sockets
+                per_r, whole_r, acc_r = run_on_real_sockets(dict(wc, script=script))
+                per_v, whole_v = classify(w.results[0]['outcome'], w.results[0]['env'])
+                acc_v = set()
+                for p in w.peers:
+                    acc_v |= set((a.decode('latin-1'), b.decode('latin-1')) for a, b in p.accepted())
+                res.traces_validated += 1
+                res.count('real_socket_replays')
+                if (per_r, whole_r, acc_r) != (per_v, whole_v, acc_v):
+                    res.violation({'part': 'conformance', 'kind': 'in-memory-socket-differs-from-real-socket'},
+                                  'script %r config %r: virtual (%r, %r, %r) real (%r, %r, %r)' % (script, wc, per_v, whole_v, sorted(acc_v), per_r, whole_r, sorted(acc_r)),
+                                  {'part': 'A', 'cfg': wc, 'script': script})
     elif cfg['part'] == 'B':
         for i, case in enumerate(pipe_cases()):
             if i % cfg['of'] != cfg['k']:
